@@ -153,6 +153,8 @@ def run_cache(facts, out):
                 if rv['k'] == 'ref' and rv['m'] == 'mut':
                     tgt = _owner_field(b, rv['pl'], owner)
                     what = '&mut borrow'
+                    if tgt in key_fields and not s['pl']['p'] and _only_shared_uses(b, s['pl']['l']):
+                        tgt = None      # e.g. `let Self { mode, .. } = self;` followed by reads only
                 wtgt = _owner_field(b, s['pl'], owner)
                 if wtgt in key_fields:
                     tgt, what = wtgt, 'assignment'
@@ -167,72 +169,111 @@ def run_cache(facts, out):
     for p, b in sorted(facts.bodies.items()):
         for bb, t in b.calls():
             c = callee_of(t)
-            if c and c['path'] == 'std::option::Option::<T>::insert' and t['args']:
+            if c and c['path'] in ('std::option::Option::<T>::insert', 'std::option::Option::<T>::get_or_insert_with') and t['args']:
                 l0 = op_local(t['args'][0])
-                src = _trace_ref_field(b, l0, owner) if l0 is not None else None
+                pl0 = resolve_ref(b, l0) if l0 is not None else None
+                src = _owner_field(b, pl0, owner) if pl0 is not None else None
                 if src == cache_field:
+                    if c['path'].endswith('get_or_insert_with'):
+                        # the closure must return Curve::new(..) of the path's own key fields
+                        cl = op_local(t['args'][1])
+                        cty = b.locals[cl].get('closure') if cl is not None else None
+                        cb = facts.bodies.get(cty) if cty else None
+                        ok = cb is not None and _returns_curve_new(facts, cb, set())
+                        out.add('CI', b.path, 'cache-fill', loc_of(t['sp']), ok,
+                                '' if ok else 'cache is filled by a closure that does not return Curve::new of the path\'s own key fields')
+                        continue
                     # value operand must come from a call chain ending in Curve::new on self
                     ok = _value_from_self_curve(facts, b, t['args'][1])
                     out.add('CI', b.path, 'cache-fill', loc_of(t['sp']), ok,
                             '' if ok else 'cache is filled with a value that is not Curve::new of the path\'s own key fields')
 
 
-def _trace_field(body, pl, owner):
-    """name of the `owner` field this operand place reads (following one level of ref/copy temps)"""
+def _trace_field(body, pl, owner, depth=0):
+    """name of the `owner` field this operand place derives from (through temporaries, reborrows,
+    deref/as_slice style calls and closure captures)"""
     f = _owner_field(body, pl, owner)
     if f:
         return f
-    if not pl['p'] or all(e['k'] == 'deref' for e in pl['p']):
-        l = pl['l']
-        seen = set()
-        while l not in seen:
-            seen.add(l)
-            defs = body.defs.get(l, [])
-            if len(defs) != 1:
+    if depth > 12:
+        return None
+    l = pl['l']
+    if l <= body.argc:
+        return None
+    defs = body.defs.get(l, [])
+    if len(defs) != 1:
+        return None
+    bi, si, kind, s = defs[0]
+    if kind == 'assign':
+        rv = s['rv']
+        if rv['k'] in ('ref', 'rawptr'):
+            return _trace_field(body, rv['pl'], owner, depth + 1)
+        if rv['k'] in ('use', 'cast'):
+            p2 = op_place(rv['op'])
+            if p2 is None:
                 return None
-            bi, si, kind, s = defs[0]
-            if kind == 'assign':
-                rv = s['rv']
-                if rv['k'] == 'ref':
-                    f = _owner_field(body, rv['pl'], owner)
-                    if f:
-                        return f
-                    if rv['pl']['p'] and all(e['k'] == 'deref' for e in rv['pl']['p']):
-                        l = rv['pl']['l']
-                        continue
-                    return None
-                if rv['k'] == 'use':
-                    p2 = op_place(rv['op'])
-                    if p2 is None:
-                        return None
-                    f = _owner_field(body, p2, owner)
-                    if f:
-                        return f
-                    if not p2['p']:
-                        l = p2['l']
-                        continue
-                if rv['k'] == 'cast':
-                    p2 = op_place(rv['op'])
-                    if p2 is not None and not p2['p']:
-                        l = p2['l']
-                        continue
-                return None
-            if kind == 'call':
-                # deref / as_slice of a field: first arg
-                t = s
-                if t['args']:
-                    p2 = op_place(t['args'][0])
-                    if p2 is not None and not p2['p']:
-                        l = p2['l']
-                        continue
-                return None
+            return _trace_field(body, p2, owner, depth + 1)
+        return None
+    if s['args']:
+        p2 = op_place(s['args'][0])
+        if p2 is not None:
+            return _trace_field(body, p2, owner, depth + 1)
     return None
+
+
+def _only_shared_uses(body, l):
+    """the reference local `l` is only ever reborrowed shared or read through"""
+    for bi, blk in enumerate(body.blocks):
+        if blk.get('cleanup'):
+            continue
+        for s in blk['st']:
+            if s['k'] != 'assign':
+                continue
+            if s['pl']['l'] == l and s['pl']['p']:
+                return False            # store through it
+            rv = s['rv']
+            if rv['k'] in ('ref', 'rawptr') and rv['pl']['l'] == l:
+                if rv['k'] == 'rawptr' or rv['m'] == 'mut':
+                    return False
+            if rv['k'] in ('use', 'cast'):
+                pl = op_place(rv['op'])
+                if pl is not None and pl['l'] == l and not pl['p']:
+                    return False        # the &mut itself is moved/copied somewhere
+            if rv['k'] == 'aggr':
+                for o in rv['ops']:
+                    pl = op_place(o)
+                    if pl is not None and pl['l'] == l and not pl['p']:
+                        return False
+        t = blk['term']
+        if t['k'] == 'call':
+            for a in t['args']:
+                pl = op_place(a)
+                if pl is not None and pl['l'] == l and not pl['p']:
+                    return False
+    return True
 
 
 def _owner_field(body, pl, owner):
     for e in pl['p']:
         if e['k'] == 'field' and e.get('adt') == owner:
             return e['n']
+    # closure capture of a reference to an owner field: look at the construction site
+    if pl['l'] == 1 and '{closure' in body.path.rsplit('::', 1)[-1]:
+        proj = [e for e in pl['p'] if e['k'] != 'deref']
+        if proj and proj[0]['k'] == 'field' and proj[0]['n'].isdigit():
+            k = int(proj[0]['n'])
+            for pb in body.facts.bodies.values():
+                for blk in pb.blocks:
+                    for s in blk['st']:
+                        if s['k'] == 'assign' and s['rv']['k'] == 'aggr' and s['rv'].get('closure') == body.path:
+                            ops = s['rv']['ops']
+                            if k < len(ops):
+                                l = op_local(ops[k])
+                                src = resolve_ref(pb, l) if l is not None else None
+                                if src is not None:
+                                    for e in src['p']:
+                                        if e['k'] == 'field' and e.get('adt') == owner:
+                                            return e['n']
     return None
 
 
@@ -332,7 +373,8 @@ def cache_fill_blocks(body, owner, cache_field):
         t = blk['term']
         if t['k'] == 'call':
             c = callee_of(t)
-            if c and c['path'] == 'std::option::Option::<T>::insert':
+            if c and c['path'] in ('std::option::Option::<T>::insert', 'std::option::Option::<T>::get_or_insert_with',
+                                   'std::option::Option::<T>::get_or_insert', 'std::option::Option::<T>::replace'):
                 pts.append((bi, 'term'))
     return pts
 
